@@ -17,7 +17,10 @@ class Case:
     def __init__(self, line):
         t = line.split()
         self.line = line
-        self.dir = t[1]
+        # "b1s"/"b2s": slow but successful: every message gets through within its retransmission
+        # budget (no exchange is abandoned), so the transfer must complete
+        self.slow = t[1] in ("b1s", "b2s")
+        self.dir = t[1][:2] if self.slow else t[1]
         self.len = int(t[2])
         self.seed = int(t[3])
         self.type = int(t[4])
@@ -25,9 +28,16 @@ class Case:
         self.single_cli, self.single_srv = int(t[8]), int(t[9])
         self.cli_mtu, self.srv_mtu = int(t[10]), int(t[11])
         self.sched = t[12] if len(t) > 12 else ""
+        self.len2 = int(t[13]) if len(t) > 14 else None      # "b11": second upload, same resource
+        self.start2 = int(t[14]) if len(t) > 14 else None
 
     def lossless(self):
         return all(c == "." for c in self.sched)
+
+    def must_complete(self):
+        # completion is promised only when no datagram is lost or duplicated; a slow transfer
+        # (self.slow) may fail, but explicitly (O5, O8, O9)
+        return self.lossless()
 
 
 def parse(out):
@@ -104,15 +114,18 @@ def oracle(case, out):
                 deliveries.append((off, total, ln, eq))
         elif k == "HC":
             code = int(f[1])
-            late = False
+            # after the transfer concluded (final response or NACK given to the application)
+            # a late reply - the answer to a duplicated datagram, or to a request of the
+            # transfer (ETag restart) that was still outstanding - can no longer be mapped
+            # to the application's token
+            late = (success + errors + nacks) > 0 and not case.lossless()
             if f[3] != "T":
-                # after the transfer concluded (final response or NACK given to the application)
-                # a late reply - the answer to a duplicated datagram, or to a request of the
-                # transfer (ETag restart) that was still outstanding - can no longer be mapped
-                # to the application's token
-                late = (success + errors + nacks) > 0 and not case.lossless()
                 bad.append("%s response handler saw token %s, the application's is %s" %
                            ("O3STALE" if late else "O3", f[2], case.tok))
+            if code == 95:
+                if not late:
+                    bad.append("O9 the application's response handler was given an intermediate 2.31 Continue")
+                continue
             if code >> 5 == 2:
                 if case.dir == "b2":
                     off, total, ln, eq = int(f[4]), int(f[5]), int(f[6]), f[8]
@@ -192,16 +205,35 @@ def oracle(case, out):
             bad.append("coap_add_data_large_* refused but a body was delivered")
         if case.dir == "b2" and case.lossless() and errors == 0:
             bad.append("O5 coap_add_data_large_response refused but the requester saw no error response")
-    elif case.lossless():
+    elif case.must_complete():
+        why = "no datagram lost or duplicated" if case.lossless() else \
+              "every message got through within its retransmission budget"
         if case.len > 0 and complete != 1:
-            bad.append("O4 no datagram lost or duplicated but %d complete deliveries (%d handler calls)"
-                       % (complete, len(deliveries)))
+            bad.append("O4 %s but %d complete deliveries (%d handler calls)"
+                       % (why, complete, len(deliveries)))
         if success != 1 or errors or nacks:
-            bad.append("O4 no datagram lost or duplicated but success responses=%d errors=%d nacks=%d"
-                       % (success, errors, nacks))
-    # O5
+            bad.append("O4 %s but success responses=%d errors=%d nacks=%d"
+                       % (why, success, errors, nacks))
+    # O8: a success told to the uploader means the server application has the body
+    if case.dir == "b1" and not refused and success > 0 and complete == 0 and case.len > 0:
+        bad.append("O8 the uploader was given a success response but the body was never delivered")
+    # O5: a Confirmable request of the client that was transmitted MAX_RETRANSMIT+1 times without
+    # any reply reaching the client is abandoned: the application must then have been told
+    # (silence after an acknowledged request whose separate response was lost is the network's)
     if case.type == 0 and success == 0 and errors == 0 and nacks == 0 and not (refused and case.dir == "b1"):
-        bad.append("O5 confirmable request ended without response, error or NACK")
+        sent_n, answered = {}, set()
+        txs = {}
+        for f in ev:
+            if f[0] == "TXc" and f[2] == "0":
+                sent_n[f[4]] = sent_n.get(f[4], 0) + 1
+            elif f[0] == "TXs" and f[2] in ("2", "3"):
+                txs[f[1]] = f[4]
+            elif f[0] == "RX" and f[1] in txs:
+                answered.add(txs[f[1]])
+        abandoned = [m for m, n in sent_n.items() if n >= 5 and m not in answered]
+        if abandoned or case.lossless():
+            bad.append("O5 confirmable request (mid %s) was abandoned but the application got no "
+                       "response, error or NACK" % ",".join(abandoned[:3]))
     # O7
     if fin:
         rel_c, rel_s = int(fin[1]), int(fin[2])
@@ -215,12 +247,85 @@ def oracle(case, out):
     return bad
 
 
+def oracle_b11(case, out):
+    """two uploads A and B (own byte streams) to one resource on one session, told apart by
+    token / Request-Tag; single-body mode at the server; schedules without duplication"""
+    bad = []
+    if out.startswith("CRASH") or "END:" not in out:
+        return ["driver crashed or did not finish: " + out[:80]]
+    ev = parse(out)
+    got = {"=": 0, "+": 0}
+    resp = {"T": [0, 0, 0], "U": [0, 0, 0]}      # success, error, nack per application token
+    concluded = False
+    for f in ev:
+        k = f[0]
+        if k == "HS":
+            off, total, ln, eq = int(f[3]), int(f[4]), int(f[5]), f[7]
+            want = case.len if eq == "=" else case.len2 if eq == "+" else -1
+            if eq not in got or off != 0 or ln != want or total != want:
+                bad.append("O1 the server application got a body that is neither upload A nor upload B "
+                           "(off=%d total=%d len=%d eq=%s): blocks of the two transfers were mixed" %
+                           (off, total, ln, eq))
+            else:
+                got[eq] += 1
+        elif k == "HC":
+            who = f[3]
+            code = int(f[1])
+            if who == "F":
+                late = concluded and not case.lossless()
+                bad.append("%s response handler saw token %s, not one of the application's" %
+                           ("O3STALE" if late else "O3", f[2]))
+                continue
+            resp[who][0 if code >> 5 == 2 else 1] += 1
+            concluded = True
+        elif k == "NK":
+            if f[3] in resp:
+                resp[f[3]][2] += 1
+                concluded = True
+            elif f[3] == "F":
+                bad.append("O3 nack handler saw token %s, not one of the application's" % f[2])
+        elif k == "END" and f[1] == "steps":
+            bad.append("LIVELOCK the exchange does not terminate")
+        elif k == "FIN":
+            if int(f[1]) != 2:
+                bad.append("O7 client release callback ran %d times for 2 uploads" % int(f[1]))
+    # which uploads are block-wise at all (a body that fits one message is an ordinary request:
+    # its re-delivery after a lost ACK is the message layer's business, C07/C10)
+    tok2 = ""
+    for tok in out.split():
+        if tok.startswith("TOK2:"):
+            tok2 = tok[5:]
+            break
+    first = {}
+    for f in ev:
+        if f[0] == "TXc" and f[2] != "UNPARSEABLE" and int(f[10]) > 0 and f[5] not in first:
+            first[f[5]] = f[6] != "-"
+    blockwise = {"=": first.get(case.tok, False), "+": first.get(tok2, False)}
+    for eq, name in (("=", "A"), ("+", "B")):
+        if got[eq] > 1 and blockwise[eq]:
+            bad.append("O2 upload %s was delivered %d times" % (name, got[eq]))
+    if case.lossless():
+        if got["="] != 1 or got["+"] != 1:
+            bad.append("O4 no datagram lost or duplicated but deliveries A=%d B=%d" % (got["="], got["+"]))
+        for who in ("T", "U"):
+            if resp[who] != [1, 0, 0]:
+                bad.append("O4 no datagram lost or duplicated but upload %s saw success/error/nack = %s" %
+                           (who, resp[who]))
+    if case.type == 0:
+        for who in ("T", "U"):
+            if sum(resp[who]) == 0:
+                bad.append("O5 confirmable upload %s ended without response, error or NACK" % who)
+    return bad
+
+
 def run_oracle(line, out):
     c = Case(line)
     c.tok = ""
     for tok in out.split()[:2]:
         if tok.startswith("TOK:"):
             c.tok = tok[4:]
+    if c.dir == "b11":
+        return c, oracle_b11(c, out)
     return c, oracle(c, out)
 
 
@@ -233,7 +338,7 @@ def tie_lines(case, out):
                 receiver dropped its state; the model's outcome per message must equal what
                 the real receiver did (RecBlocks.v reassembly cores vs put_block / get_block)
     -> (wire_line or None, recv_line or None, observed outcome string)"""
-    if "END:" not in out:
+    if "END:" not in out or case.dir == "b11":
         return None, None, ""
     ev = parse(out)
     data_sender = "TXc" if case.dir == "b1" else "TXs"
@@ -365,3 +470,65 @@ def tie_lines(case, out):
     mx = case.srv_szx if case.srv_szx != 7 else 0
     recv_line = "blkrecv %s %d %d %d %s" % (case.dir, case.len, case.seed, mx, " ".join(toks))
     return wire_line, recv_line, "".join(obs)
+
+
+MAX_TRANSMIT_WAIT_MS = 93000      # ACK_TIMEOUT 2 s, ACK_RANDOM_FACTOR 1.5, MAX_RETRANSMIT 4
+
+
+def timer_line(case, out):
+    """client-side transfer state (lg_xmit of an upload / lg_crcv of a download) against the timed
+    model: progress events = a new block sent (b1) / a new block accepted (b2), checks = every
+    point where the library's timeout functions ran; -> (model line, observed) or (None, None).
+    Only for schedules that lose datagrams (no duplication / reordering), where "new block" is
+    unambiguous."""
+    if case.dir not in ("b1", "b2") or any(c not in ".x" for c in case.sched) or "END:" not in out:
+        return None, None
+    ev = parse(out)
+    fld = 4 if case.dir == "b1" else 3            # ST: client lg_xmit / lg_crcv count
+    now = 1000
+    t0 = None
+    evs = []
+    seen = set()
+    txinfo = {}
+    observed = "alive"
+    alive_seen = False
+    for f in ev:
+        k = f[0]
+        if k == "T":
+            now = int(f[1])
+            if t0 is not None:
+                evs.append("C%d" % now)
+        elif k == "TXc" and f[2] != "UNPARSEABLE":
+            if case.dir == "b1" and f[6] != "-" and int(f[10]) > 0:
+                num = f[6].split("/")[0] + "/" + f[6].split("/")[2]
+                if num not in seen:
+                    seen.add(num)
+                    if t0 is None:
+                        t0 = now
+                    else:
+                        evs.append("P%d" % now)
+        elif k == "TXs" and f[2] != "UNPARSEABLE":
+            txinfo[f[1]] = f
+        elif k == "RX":
+            if t0 is not None:
+                evs.append("C%d" % now)
+            g = txinfo.get(f[1])
+            if case.dir == "b2" and g is not None and g[7] != "-" and g[3] == "69":
+                key = g[7].split("/")[0] + "/" + g[7].split("/")[2] + "/" + (g[13] if len(g) > 13 else "-")
+                if key not in seen:
+                    seen.add(key)
+                    if t0 is None:
+                        t0 = now
+                    else:
+                        evs.append("P%d" % now)
+        elif k == "ST":
+            n = int(f[fld])
+            if n >= 1:
+                alive_seen = True
+            elif alive_seen and observed == "alive":
+                observed = "gone@%d" % now
+        elif k in ("HC", "NK"):
+            break                                   # concluded: the state goes with the transfer
+    if t0 is None or not alive_seen:
+        return None, None
+    return "blktimed %d %d %s" % (MAX_TRANSMIT_WAIT_MS, t0, " ".join(evs)), observed
